@@ -201,6 +201,13 @@ func (m *mux) Open(id ConnID) (net.Conn, error) {
 			readC: make(chan []byte, m.qlen),
 		}
 		m.conns[id] = c
+
+		select {
+		case <-m.doneC:
+			// Nobody would ever close a connection opened on a closed mux.
+			c.close()
+		default:
+		}
 	}
 
 	return c, nil
